@@ -13,7 +13,7 @@ from mzverif.core import Discard, Sub, Violation, require
 
 ID = "C03"
 LEVEL = "exploration"
-TECHNIQUE = "Hypothesis over dataset configurations (generator x kwargs x grid size x n_mazes up to 101 x seed x endpoint options x serial/from_config/parallel with pool size) + grids beyond 128 cells per side + cyclic mazes with endpoints more than 127 steps apart; oracle = per-item validity predicate from the independent BFS model plus endpoint-option conformance; endpoint-draws: exact model of which start/end cells the options leave (a refusal is accepted only when nothing is left)"
+TECHNIQUE = "Hypothesis over dataset configurations (generator x kwargs x grid size x n_mazes up to 101 x seed x endpoint options x serial/from_config/parallel with pool size) + grids beyond 128 cells per side + cyclic mazes with endpoints more than 127 steps apart; oracle = per-item validity predicate from the independent BFS model plus endpoint-option conformance; endpoint-draws: exact model of which start/end cells the options leave (a refusal is accepted only when nothing is left); configuration objects that reached their content through in-place edits after being looked at"
 RULE = (
     "case = (configuration spec incl. endpoint options, generation mode serial | parallel with k processes | from_config). Every maze "
     "of the result is checked. Non-trivial = n_mazes >= 2, grid_n >= 3 and (parallel generation or at least one endpoint option); "
